@@ -38,6 +38,34 @@ def call(what, f, *a):
                       observed="%s: %s" % (type(e).__name__, str(e)[:120]))
 
 
+def scramble(obj):
+    """change a decoded problem in place the way a caller might (edit a cell, drop a room's cell)"""
+    if isinstance(obj, list):
+        for x in obj:
+            scramble(x)
+        if obj and not isinstance(obj[0], (list, tuple)):
+            obj[0] = "edited"
+        obj.append("appended")
+    elif isinstance(obj, tuple):
+        for x in obj:
+            scramble(x)
+
+
+def decode_twice(codec, de, url):
+    """decode, let the caller edit what it got, decode the same URL again: the second result must be the
+    problem the URL encodes, not the caller's edited object"""
+    import copy
+
+    first = call("deserialize", de, url)
+    keep = copy.deepcopy(first)
+    scramble(first)
+    second = call("deserialize", de, url)
+    if second != keep:
+        raise Failure("decoded-problem-shared-between-calls|" + codec, observed=dict(url=url[:120], second=second),
+                      expected=keep)
+    return keep
+
+
 def check_shape(codec, url, rows, cols):
     try:
         name, c, r, parts = pzpr_ref.split_url(url)
@@ -69,7 +97,7 @@ def body(case):
         rows, cols = len(p), len(p[0])
         url = call("serialize", ser, [list(r) for r in p])
         check_shape(codec, url, rows, cols)
-        back = call("deserialize", de, url)
+        back = decode_twice(codec, de, url)
         if back != p:
             raise Failure("round-trip-differs|" + codec, observed=dict(url=url[:120], back=back), expected=p)
         check_ref(codec, url, p)
@@ -81,7 +109,7 @@ def body(case):
         rooms = to_rooms(p)
         url = call("serialize", getattr(mod, "serialize_" + codec), rows, cols, rooms)
         check_shape(codec, url, rows, cols)
-        back = call("deserialize", getattr(mod, "deserialize_" + codec), url)
+        back = decode_twice(codec, getattr(mod, "deserialize_" + codec), url)
         want = (rows, cols, canon_rooms(rooms))
         if back is None or (back[0], back[1], canon_rooms(back[2])) != want or \
                 [sorted(r) for r in back[2]] != [list(r) for r in back[2]]:
@@ -100,7 +128,7 @@ def body(case):
             rooms, clues = to_rooms(p[0]), list(p[1])
             url = call("serialize", heyawake.serialize_heyawake, rows, cols, rooms, clues)
         check_shape(codec, url, rows, cols)
-        back = call("deserialize", heyawake.deserialize_heyawake, url)
+        back = decode_twice(codec, heyawake.deserialize_heyawake, url)
         pairs = sorted((sorted(r), c) for r, c in zip(rooms, clues))
         want = (rows, cols, ([r for r, _ in pairs], [c for _, c in pairs]))
         if back is None or (back[0], back[1], ([sorted(r) for r in back[2][0]], list(back[2][1]))) != want:
@@ -114,7 +142,7 @@ def body(case):
         pos = [tuple(c) for c in p]
         url = call("serialize", compass.to_puzz_link_url, rows, cols, pos)
         check_shape(codec, url, rows, cols)
-        back = call("deserialize", compass.parse_puzz_link_url, url)
+        back = decode_twice(codec, compass.parse_puzz_link_url, url)
         if (back[0], back[1]) != (rows, cols):
             raise Failure("round-trip-dimensions|compass", observed=[back[0], back[1]], expected=[rows, cols])
         if sorted(back[2]) != sorted(pos):
